@@ -374,6 +374,16 @@ def gen_wide(full):
   yield Case('WIDE', Program(many + [Ann('@NoInject(Q%d);' % i) for i in (1, 10)] + [R('T', x, vs[1], vs[10], body=(Lit('Q1', x, vs[1]), Lit('Q10', x, vs[10]), Lit('Q2', x, vs[2]), Cmp('<', vs[2], vs[10])))]), ['T', 'Q10'])
 
 
+def gen_eqforms():
+  """comparisons written with `==` at proposition level whose left side is a compound expression (C11 rewrites them to `=`)"""
+  lefts = [Bin('+', x, N(1)), Bin('*', x, N(2)), Bin('-', x, y), Call('ToString', x), ('list', (x,)), ('if', Bin('<', x, y), x, y), Bin('++', Call('ToString', x), S('a')), ('fld', ('rec', (('a', x),)), 'a'), ('un', '-', x)]
+  rights = [y, Bin('+', y, N(0)), N(2), Call('ToString', y), ('list', (y,)), y, S('1a'), y, Bin('-', N(0), y)]
+  for l, r in zip(lefts, rights):
+    yield Case('EQFORMS', Program([R('T', x, y, body=(Lit('A', x, y), Cmp('==', l, r)))]), ['T'])
+    yield Case('EQFORMS', Program([R('T', x, y, body=(Cmp('==', l, r), Lit('A', x, y)))]), ['T'])
+    yield Case('EQFORMS', Program([R('T', x, body=(Lit('B', x), Not(Lit('A', x, y), Cmp('==', l, r))))]), ['T'])
+
+
 def gen_reccol():
   Rp = [R('Rp', x, ('rec', (('a', x), ('b', y))), body=(Lit('A', x, y),)), Ann('@NoInject(Rp);')]
   yield Case('EXPR', Program(Rp + [R('T', V('p'), V('q'), body=(Lit('Rp', x, V('r')), Eq(V('p'), ('fld', V('r'), 'a')), Eq(V('q'), ('fld', V('r'), 'b'))))]), ['T', 'Rp'])
@@ -461,7 +471,7 @@ def val_dbs():
 def c01_cases(thorough):
   dbs = dbs_ab(2) + val_dbs()
   dbs3 = dbs_ab(3) if thorough else None      # thorough: all multisets of <=3 rows per table (35 x 10 = 350 databases) for the smaller families
-  gens = [gen_cq(3 if thorough else 2), gen_cons(2 if thorough else 1), gen_disj(thorough), gen_expr(thorough), gen_reccol(), gen_func(thorough), gen_inj(thorough)]
+  gens = [gen_cq(3 if thorough else 2), gen_cons(2 if thorough else 1), gen_disj(thorough), gen_expr(thorough), gen_reccol(), gen_func(thorough), gen_inj(thorough), gen_eqforms()]
   seen = set()
   for g in gens:
     for c in g:
